@@ -145,7 +145,7 @@ def r141_142(facts, res):
     enum_tags(facts, res, cl, R2)
     if not any(i['rule'] == R2 for i in res.instances):
         res.ok(R2, 'no-schema-attrs', '', 'none of the %d fields of the %d closure types carries a wincode(..)/serde(skip..) attribute' % (n, len(cl)))
-    res.floor(R2, 'fields examined', n, 40)
+    res.floor(R2, 'fields examined', n, 35)
 
 
 def enum_tags(facts, res, cl, R):
